@@ -34,9 +34,9 @@ m('c02-pad-only-one-byte', ('mnemonic.go', PAD, '''	if entLen := wordCount / 3 *
 '''))
 m('c03-skip-checksum-24', ('mnemonic.go', 'if sum.Cmp(csBig) != 0 {', 'if sum.Cmp(csBig) != 0 && !(wordCount == 24 && csBig.Sign() == 0) {'))
 m('c03-count-gate-9', ('mnemonic.go', 'wordCount < 12 ||', 'wordCount < 9 ||'))
-m('c03-count-gate-27', ('mnemonic.go', 'wordCount > 24 {', 'wordCount > 27 {'))
+m('c15-count-gate-27-panics', ('mnemonic.go', 'wordCount > 24 {', 'wordCount > 27 {'))
 m('c03-checksum-low-bits-only', ('mnemonic.go', 'if sum.Cmp(csBig) != 0 {', 'if sum.Int64()&0x7f != csBig.Int64()&0x7f {'))
-m('c03-fields-split', ('mnemonic.go', 'wordList := strings.Split(mnemonic, "\\x20")', 'wordList := strings.Fields(mnemonic)'))
+m('ok-fields-split', ('mnemonic.go', 'wordList := strings.Split(mnemonic, "\\x20")', 'wordList := strings.Fields(mnemonic)'))
 
 m('c04-nfkc-for-long', ('bip39.go', 'password := []byte(norm.NFKD.String(mnemonic))', 'password := []byte(norm.NFKD.String(mnemonic))\n\tif len(mnemonic) > 1000 {\n\t\tpassword = []byte(norm.NFKC.String(mnemonic))\n\t}'))
 m('c04-passphrase-ascii-prefix-shortcut', ('bip39.go', 'salt := []byte(norm.NFKD.String("mnemonic" + passphrase))', 'salt := []byte("mnemonic" + passphrase)\n\tif len(passphrase) > 0 && passphrase[0] >= 0x80 {\n\t\tsalt = []byte(norm.NFKD.String("mnemonic" + passphrase))\n\t}'))
@@ -142,6 +142,41 @@ m('c17-trimspace', ('update-wordlist/main.go', 'data := Template{WordList: strin
 m('c17-french-spanish', ('update-wordlist/main.go', '"french":              "French",', '"french":              "Spanish",'), ('update-wordlist/main.go', '"spanish":             "Spanish",', '"spanish":             "French",'))
 m('c17-drop-last-without-newline', ('update-wordlist/main.go', 'data := Template{WordList: strings.Split(string(src), "\\n"), Variable: variable}', 'lines := strings.Split(string(src), "\\n")\n\tdata := Template{WordList: lines[:len(lines)-1], Variable: variable}'))
 
+
+# --- negative controls: changes that keep every property; no check may raise an alarm ---
+m('ok-ascii-fast-path', ('mnemonic.go', '\tmnemonic = norm.NFKD.String(mnemonic)\n', '\tascii := true\n\tfor i := 0; i < len(mnemonic); i++ {\n\t\tif mnemonic[i] >= 0x80 {\n\t\t\tascii = false\n\t\t\tbreak\n\t\t}\n\t}\n\tif !ascii {\n\t\tmnemonic = norm.NFKD.String(mnemonic)\n\t}\n'))
+m('ok-wrapped-sentinels', ('mnemonic.go', '\t\treturn ErrChecksumIncorrect', '\t\treturn fmt.Errorf("mnemonic of %d words: %w", wordCount, ErrChecksumIncorrect)'),
+  ('mnemonic.go', '\t\treturn ErrWordLen', '\t\treturn fmt.Errorf("%d words: %w", wordCount, ErrWordLen)'))
+m('ok-eager-maps', ('lang.go', '// mapping returns word index mapping', 'func init() {\n\tfor l := ChineseSimplified; l <= Portuguese; l++ {\n\t\tl.mapping()\n\t}\n}\n\n// mapping returns word index mapping'))
+m('ok-global-mutex', ('mnemonic.go', 'func CheckMnemonic(mnemonic string, lg Language) error {\n', 'func CheckMnemonic(mnemonic string, lg Language) error {\n\tcheckMu.Lock()\n\tdefer checkMu.Unlock()\n'),
+  ('mnemonic.go', '// IsMnemonicValid validate menemonic', 'var checkMu sync.Mutex\n\n// IsMnemonicValid validate menemonic'),
+  ('mnemonic.go', '\t"strings"\n', '\t"strings"\n\t"sync"\n'))
+m('ok-over-read', ('bip39.go', '''	entropy := make([]byte, length+length/3)
+	if _, err := io.ReadFull(cryptoRander, entropy); err != nil {
+		return "", err
+	}
+''', '''	var block [40]byte
+	if _, err := io.ReadFull(cryptoRander, block[:]); err != nil {
+		return "", err
+	}
+	entropy := block[:length+length/3]
+'''))
+m('ok-strict-on-error-alongside', ('bip39.go', '''	if _, err := io.ReadFull(cryptoRander, entropy); err != nil {
+		return "", err
+	}
+''', '''	for got := 0; got < len(entropy); {
+		n, err := cryptoRander.Read(entropy[got:])
+		got += n
+		if err != nil {
+			return "", err
+		}
+		if n == 0 {
+			continue
+		}
+	}
+'''))
+m('ok-seed-extra-copy', ('bip39.go', '\treturn pbkdf2.Key(password, salt, 2048, 64, sha512.New)', '\tkey := pbkdf2.Key(password, salt, 2048, 64, sha512.New)\n\tout := make([]byte, len(key))\n\tcopy(out, key)\n\treturn out'))
+m('ok-message-format', ('mnemonic.go', 'return fmt.Errorf("word `%s` at `%d` not found in mnemonic mapping", word, wordIdx)', 'return fmt.Errorf("unknown word %q (position %d)", word, wordIdx+1)'))
 
 def main():
     only = set(sys.argv[1:])
